@@ -105,7 +105,7 @@ Qed.
 
 (* ---------- one element with an expected universal identifier -------------------------------------- *)
 Lemma header_link bs off st T (c : bool) :
-  bytes_ok bs -> (T < 31)%N ->
+  bytes_ok bs -> (T < 31)%N -> T <> TagUTCTime ->
   match field_header (false, T, c) false noParams bs off st with
   | Ok (HElem t inner o' st') =>
       DER.asn1_read (skipn off bs) (T + (if c then 32 else 0)) = Some (inner, skipn o' bs) /\ off < o' <= length bs /\ bytes_ok inner
@@ -114,8 +114,9 @@ Lemma header_link bs off st T (c : bool) :
   | Panic | Hang => False
   end.
 Proof.
-  intros Hb HT. pose proof (field_header_spec (false, T, c) false noParams bs off st) as SP.
+  intros Hb HT HT23. pose proof (field_header_spec (false, T, c) false noParams bs off st) as SP.
   unfold field_header in *. cbn [p_optional p_explicit p_tag p_set noParams] in *.
+  rewrite (proj2 (N.eqb_neq T TagUTCTime) HT23) in *. cbn [andb] in *.
   destruct (Nat.eqb_spec off (length bs)) as [Heq|Hne].
   { rewrite skipn_nil_ge by lia. reflexivity. }
   destruct (Nat.le_gt_cases (length bs) off) as [Hge|Hlt].
@@ -236,7 +237,7 @@ Lemma int_field_link bs off st : bytes_ok bs ->
   end.
 Proof.
   intros Hb. cbn [parseField getUniversalType is_raw]. unfold DER.asn1_read_int.
-  pose proof (header_link bs off st TagInteger false Hb ltac:(unfold TagInteger; lia)) as HL.
+  pose proof (header_link bs off st TagInteger false Hb ltac:(unfold TagInteger; lia) ltac:(discriminate)) as HL.
   change (TagInteger + (if false then 32 else 0))%N with DER.TAG_INTEGER in HL.
   destruct (field_header (false, TagInteger, false) false noParams bs off st) as [[|t inner o' st']| | |]; cbn [obind]; auto.
   - destruct HL as (-> & Ho & _). pose proof (parseBigInt_link inner) as PL.
@@ -255,7 +256,7 @@ Lemma octets_field_link bs off st : bytes_ok bs ->
   end.
 Proof.
   intros Hb. cbn [parseField getUniversalType is_raw].
-  pose proof (header_link bs off st TagOctetString false Hb ltac:(unfold TagOctetString; lia)) as HL.
+  pose proof (header_link bs off st TagOctetString false Hb ltac:(unfold TagOctetString; lia) ltac:(discriminate)) as HL.
   change (TagOctetString + (if false then 32 else 0))%N with DER.TAG_OCTET_STRING in HL.
   destruct (field_header (false, TagOctetString, false) false noParams bs off st) as [[|t inner o' st']| | |]; cbn [obind]; auto.
   destruct HL as (H1 & H2 & _). split; assumption.
@@ -313,7 +314,7 @@ Theorem sig_models_agree b : bytes_ok b ->
   der_asn1_sig b = match signDataToSignDigit b with Ok rs => Some rs | _ => None end.
 Proof.
   intros Hb. unfold der_asn1_sig, signDataToSignDigit, Unmarshal, sigSchema. rewrite parseField_struct.
-  pose proof (header_link b 0 0%N TagSequence true Hb ltac:(unfold TagSequence; lia)) as HL.
+  pose proof (header_link b 0 0%N TagSequence true Hb ltac:(unfold TagSequence; lia) ltac:(discriminate)) as HL.
   change (TagSequence + (if true then 32 else 0))%N with DER.TAG_SEQUENCE in HL. cbn [skipn] in HL.
   destruct (field_header (false, TagSequence, true) false noParams b 0 0) as [[|t inner o' st']| | |]; cbn [obind]; try contradiction.
   2:{ rewrite HL. reflexivity. }
@@ -337,7 +338,7 @@ Theorem cipher_models_agree b : bytes_ok b ->
   end.
 Proof.
   intros Hb. unfold DER.asn1_unmarshal_cipher, Unmarshal, cipherSchema. rewrite parseField_struct.
-  pose proof (header_link b 0 0%N TagSequence true Hb ltac:(unfold TagSequence; lia)) as HL.
+  pose proof (header_link b 0 0%N TagSequence true Hb ltac:(unfold TagSequence; lia) ltac:(discriminate)) as HL.
   change (TagSequence + (if true then 32 else 0))%N with DER.TAG_SEQUENCE in HL. cbn [skipn] in HL.
   destruct (field_header (false, TagSequence, true) false noParams b 0 0) as [[|t inner o' st']| | |]; cbn [obind]; try contradiction.
   2:{ rewrite HL. reflexivity. }
